@@ -151,19 +151,24 @@ func c12Eval(k c12Case) (string, string) {
 }
 
 func c12Run(c *RunCtx) {
-	full := 2
+	type set struct {
+		alpha []string
+		n     int
+	}
+	sets := []set{{alphaGeneral, 0}, {alphaGeneral, 1}, {alphaGeneral, 2}}
 	if c.Thorough() {
-		full = 3
+		sets = append(sets, set{alphaCore, 3})
 	}
 	i := -1
 	progs := 0
-	for n := 0; n <= full; n++ {
-		seqs(len(alphaGeneral), n, func(idx []int) {
+	for _, st := range sets {
+		alpha := st.alpha
+		seqs(len(alpha), st.n, func(idx []int) {
 			i++
 			if !c.Mine(i) {
 				return
 			}
-			text := buildProg(alphaGeneral, idx)
+			text := buildProg(alpha, idx)
 			progs++
 			type run struct {
 				ref refResult
@@ -247,7 +252,7 @@ func c12Run(c *RunCtx) {
 		})
 	}
 	c.AddExtra("programs", float64(progs))
-	c.Sum.Rule = "PX: every program of the C01 general set (length <= 2 quick / <= 3 thorough) x 6 initial states x 33 configurations; MVP-1 exact against the latency model computed from the reference trace, MVP-2 <= MVP-1, cycles > 0 and >= ceil(n/width) everywhere, and equal cycles for every pair of initial states with identical reference pc and address sequences; non-trivial = distinct programs for which at least one such pair of initial states exists"
+	c.Sum.Rule = "PX: every program of the C01 general set up to length 2 (thorough: plus every length-3 program over the core alphabet) x 6 initial states x 33 configurations; MVP-1 exact against the latency model computed from the reference trace, MVP-2 <= MVP-1, cycles > 0 and >= ceil(n/width) everywhere, and equal cycles for every pair of initial states with identical reference pc and address sequences; non-trivial = distinct programs for which at least one such pair of initial states exists"
 	c.Assume("the latency table is common/latency plus InstructionType.Cycles(); an instruction that produces a register result pays the register write-back even when rd is zero")
 	c.Assume("only executions whose architectural result equals the reference take part (wrong results are C01's)")
 }
@@ -267,6 +272,7 @@ func init() {
 	register("C03", &Check{Shards: func(tier string) int { return 64 }, Run: c03Run, Replay: c03Replay})
 	for name, s := range map[string]*pxSuite{"C04": c04Suite, "C05": c05Suite, "C07": c07Suite, "C09": c09Suite, "C10": c10Suite} {
 		s := s
+		name := name
 		switch name {
 		case "C05", "C10":
 			s.Inits = initsByID("pos")
@@ -275,7 +281,19 @@ func init() {
 		}
 		register(name, &Check{
 			Shards: func(tier string) int { return 64 },
-			Run:    func(c *RunCtx) { pxRunSuite(c, s) },
+			Run: func(c *RunCtx) {
+				s2 := *s
+				if c.Thorough() && name == "C04" {
+					two, one := initsByID("pos", "neg"), initsByID("pos")
+					s2.InitsFor = func(p pxProg) []*pxInit {
+						if p.Tag == "deps-len4" || p.Tag == "deps-core" {
+							return one
+						}
+						return two
+					}
+				}
+				pxRunSuite(c, &s2)
+			},
 			Replay: pxReplay(s),
 		})
 	}
